@@ -374,3 +374,13 @@ theorem parse_printLcov_off (rs : List (Bytes × Cov)) (h : ∀ pc ∈ rs, Write
     simp [finish]
 
 end Grcov.Lcov
+
+namespace Grcov.Props.C05
+open Grcov Grcov.Lcov
+
+/-- what the writer can write and the reader returns unchanged as a file name: every record is in
+the writer's domain and every path is (as any Rust `String`) a fixed point of the name decoding -/
+def ReportOK (rs : List (Bytes × Cov)) : Prop :=
+  ∀ pc ∈ rs, WriterOK pc.1 pc.2 ∧ utf8Lossy pc.1 = pc.1
+
+end Grcov.Props.C05
